@@ -77,6 +77,7 @@ fn main() {
                 runner::run_stream(prop, StreamArgs { tier, seed, stream, nstreams, outdir, resume, active, known_sigs })
             })
         }
+        "c08-helper" => props::c08::helper_main(parse_tier(args.get(2).map(|s| s.as_str()).unwrap_or("quick"))),
         "one" => {
             engine::install_panic_hook();
             let prop = props::find(&args[2]).expect("unknown property");
